@@ -109,9 +109,22 @@ def spec (caseLine implLine : String) : String :=
         let allowed := pick "c" c.m.counters ++ pick "t" c.m.timers ++ pick "g" c.m.gauges ++ pick "s" c.m.sets
         let got := if ws[w]! == "-" then [] else ws[w]!.splitOn " ; "
         got.all (fun e => allowed.contains e) && got.eraseDups.length == got.length)
+    -- dispatch across a flush (`F …`, not predicted by the model): three batches before the flush, every series alone
+    -- after it; worker w must have been handed exactly the series routed to w, four times each
+    let fpart := (halves.find? (fun h => h.startsWith "F ")).getD "F -"
+    let acrossFlushOk : Bool :=
+      if fpart = "F -" then true else
+      let ws := (fpart.drop 2).toString.splitOn " | "
+      ws.length == c.n && (List.range c.n).all (fun w =>
+        let pick (ty : String) (l : AList Key String) :=
+          (l.filter (fun e => oracle c e.1 % c.n == w)).map (fun e => s!"{ty} {e.1.1} {e.1.2} {e.2}")
+        let once := pick "c" c.m.counters ++ pick "t" c.m.timers ++ pick "g" c.m.gauges ++ pick "s" c.m.sets
+        let want := sortStrings (once ++ once ++ once ++ once)
+        ws[w]! == (if want.isEmpty then "-" else " ; ".intercalate want))
     if halves.any (fun h => h.startsWith "K ") then "FAIL key-not-a-function-of-identity the two ways of computing a series key from tags and source disagree, so one series can be routed to two shards" else
     if !dispatchOk then "FAIL dispatch a worker was handed a series that is not routed to it (or missed one)" else
     if !cancelledOk then "FAIL dispatch-cancelled while the dispatch was being cancelled a worker was handed a series that is not routed to it (or one twice)" else
+    if !acrossFlushOk then "FAIL dispatch-after-flush after a flush that arrived while one worker was busy, a worker was handed a series that is not routed to it (or missed one)" else
     if pieces.length ≠ c.n then s!"FAIL piece-count {pieces.length} != {c.n}" else
     let expected (i : Nat) : List String :=
       let pick (ty : String) (l : AList Key String) :=
